@@ -560,51 +560,103 @@ def enclosing_if(node):
     return cur if isinstance(cur, ast.If) else None
 
 
+_PURE_CALLS = {'len', 'bytes', 'bytearray', 'list', 'tuple', 'isinstance', 'type', 'int', 'bool', 'str', 'repr', 'sum', 'min', 'max', 'sorted', 'any', 'all',
+               'enumerate', 'zip', 'range', 'reversed', 'iter', 'hash', 'id', 'ord', 'chr', 'hex', 'set', 'frozenset', 'dict', 'print', 'bord', 'bchr'}
+_MUTATORS = {'append', 'pop', 'extend', 'insert', 'clear', 'remove', 'sort', 'reverse', 'update', 'add', 'discard', 'setdefault', 'popitem', 'write', 'read', 'seek'}
+
+
+def _killed(test, stmts):
+    """does one of `stmts` rebind or mutate a plain name the test reads? (assignment, del, mutating method, the name handed
+    to a call that is not a known pure builtin)"""
+    names = {n.id for n in ast.walk(test) if isinstance(n, ast.Name)}
+    if not names:
+        return False
+    for s in stmts:
+        for n in ast.walk(s):
+            if isinstance(n, ast.Name) and n.id in names and isinstance(n.ctx, (ast.Store, ast.Del)):
+                return True
+            if isinstance(n, (ast.Subscript, ast.Attribute)) and isinstance(n.ctx, (ast.Store, ast.Del)) and isinstance(n.value, ast.Name) and n.value.id in names:
+                return True
+            if isinstance(n, ast.Call):
+                if isinstance(n.func, ast.Attribute) and isinstance(n.func.value, ast.Name) and n.func.value.id in names and n.func.attr in _MUTATORS:
+                    return True
+                if not (isinstance(n.func, ast.Name) and n.func.id in _PURE_CALLS):
+                    for a in list(n.args) + [k.value for k in n.keywords]:
+                        if isinstance(a, ast.Starred):
+                            a = a.value
+                        if isinstance(a, ast.Name) and a.id in names:
+                            return True
+    return False
+
+
 def path_condition(node):
     """the tests that hold where `node` stands: [(test ast, polarity)] for every enclosing if/elif/else and while"""
     from . import flow as _flow
     out = []
     cur = node
     par = getattr(cur, '_parent', None)
+    # loops whose body runs again between a test made outside (or earlier in) the loop and this node: a test that reads a
+    # name the loop changes says nothing about later iterations.  A `while` statement itself re-evaluates its test after
+    # each run of its body.
+    loops = [node] if isinstance(node, ast.While) else []
+
+    def add(test, pol):
+        for lp in loops:
+            if _killed(test, list(lp.body) + list(lp.orelse)) or (isinstance(lp, ast.For) and _killed(test, [ast.Assign(targets=[lp.target], value=ast.Constant(0))])):
+                return
+        out.append((test, pol))
+
+    def before(blk, cur):
+        k = next((i for i, x in enumerate(blk) if x is cur), None)
+        return blk[:k] if k is not None else None
 
     def earlier_siblings(par, cur):
-        # guard clauses: an earlier `if t: <always leaves>` in the same block means `not t` holds from there on
+        # guard clauses: an earlier `if t: <always leaves>` in the same block means `not t` holds from there on - as long as
+        # no statement in between rebinds or mutates a local the test reads
         for f in ('body', 'orelse', 'finalbody'):
             blk = getattr(par, f, None)
             if isinstance(blk, list) and any(cur is x for x in blk):
-                for sib in blk:
+                upto = next(i for i, x in enumerate(blk) if x is cur)
+                for k_, sib in enumerate(blk):
                     if sib is cur:
                         break
+                    if isinstance(sib, (ast.If, ast.Assert)) and _killed(sib.test, blk[k_ + 1:upto]):
+                        continue
                     if isinstance(sib, ast.If):
                         if _flow.always_exits(sib.body, ['err_raiser']) and not sib.orelse:
-                            out.append((sib.test, False))
+                            add(sib.test, False)
                         elif sib.orelse and _flow.always_exits(sib.orelse, ['err_raiser']) and not _flow.always_exits(sib.body, ['err_raiser']):
-                            out.append((sib.test, True))
+                            add(sib.test, True)
                         elif sib.orelse and _flow.always_exits(sib.body, ['err_raiser']) and not _flow.always_exits(sib.orelse, ['err_raiser']):
-                            out.append((sib.test, False))
+                            add(sib.test, False)
                     elif isinstance(sib, ast.Assert):
-                        out.append((sib.test, True))
+                        add(sib.test, True)
     while par is not None and not isinstance(par, (ast.Lambda,)):
         if isinstance(cur, ast.stmt):
             earlier_siblings(par, cur)
         if isinstance(par, (ast.FunctionDef, ast.AsyncFunctionDef)):
             break
         if isinstance(par, ast.If):
+            # the enclosing test still holds unless a statement of the branch before this one changed what it reads
             if any(cur is x for x in par.body):
-                out.append((par.test, True))
+                if not _killed(par.test, before(par.body, cur)):
+                    add(par.test, True)
             elif any(cur is x for x in par.orelse):
-                out.append((par.test, False))
+                if not _killed(par.test, before(par.orelse, cur)):
+                    add(par.test, False)
         elif isinstance(par, ast.IfExp):
             if cur is par.body:
-                out.append((par.test, True))
+                add(par.test, True)
             elif cur is par.orelse:
-                out.append((par.test, False))
+                add(par.test, False)
         elif isinstance(par, ast.BoolOp):
             # a and b: b is evaluated only when a holds; a or b: only when a does not
             k = next((i for i, v in enumerate(par.values) if v is cur), None)
             if k:
                 for prev in par.values[:k]:
-                    out.append((prev, isinstance(par.op, ast.And)))
+                    add(prev, isinstance(par.op, ast.And))
+        elif isinstance(par, (ast.For, ast.AsyncFor, ast.While)) and isinstance(cur, ast.stmt) and any(cur is x for x in par.body):
+            loops.append(par)
         cur, par = par, getattr(par, '_parent', None)
     return out
 
